@@ -194,6 +194,11 @@ def drive(prop_name, cases, procs=16, chunks=8):
     return results
 
 
+def seams_mod():
+    from . import seams
+    return seams
+
+
 def load_known():
     if not os.path.exists(KNOWN):
         return []
@@ -381,6 +386,14 @@ def _run_property(prop_name, tier, seed, replay, verbose):
         exhaustive=bool(getattr(prop, 'EXHAUSTIVE', {}).get(tier, False)),
         repo=REPO,
     )
+    # how many records come from the tool run as a real process, per environment (seams.PROC_VARIANTS)
+    via = {}
+    for r in records:
+        v = r.get('via_process') or ''
+        for part in ([v] if v else [x for x in str(r.get('src', '')).split('-') if x in getattr(seams_mod(), 'PROC_VARIANTS', [])]):
+            via[part] = via.get(part, 0) + 1
+    coverage['records_from_real_processes'] = via
+    coverage['environment_varied_per_case'] = os.environ.get('VERIF_NO_ENV') != '1'
     if hasattr(prop, 'extra_coverage'):
         coverage.update(prop.extra_coverage(records, cases))
     if replay is None:
